@@ -112,6 +112,10 @@ func SetupNode(custom *config.Custom, store storage.Store, cache *ristretto.Cach
 	if err != nil {
 		return nil, fmt.Errorf("LoadConsensusNodes() => %v", err)
 	}
+	err = node.repairConsensusState()
+	if err != nil {
+		return nil, fmt.Errorf("repairConsensusState() => %v", err)
+	}
 	s, txs := node.persistStore.LastSnapshot()
 	if len(txs) == 1 {
 		err = node.reloadConsensusState(s.Snapshot, txs[0])
@@ -131,6 +135,43 @@ func SetupNode(custom *config.Custom, store storage.Store, cache *ristretto.Cach
 	logger.Printf("Node Id:\t%s\n", node.IdForNetwork.String())
 	logger.Printf("Topology:\t%d\n", node.TopoCounter.seq)
 	return node, nil
+}
+
+// repairConsensusState replays the consensus bookkeeping of consensus snapshots
+// that were finalized after the last recorded consensus snapshot. The snapshot
+// and its consensus record are two separate writes, and snapshots of other
+// chains may land between them, so after a crash the unrecorded consensus
+// snapshot is not necessarily the last one in the topology. Only the most
+// recent 500 topology entries are inspected: the two writes are consecutive
+// calls of one chain loop.
+func (node *Node) repairConsensusState() error {
+	last, err := node.persistStore.ReadLastConsensusSnapshot()
+	if err != nil || last == nil {
+		return err
+	}
+	recorded, err := node.persistStore.ReadSnapshot(last.PayloadHash())
+	if err != nil || recorded == nil {
+		return err
+	}
+	head, _ := node.persistStore.LastSnapshot()
+	offset := recorded.TopologicalOrder + 1
+	if head.TopologicalOrder >= 500 && offset+499 < head.TopologicalOrder {
+		offset = head.TopologicalOrder - 499
+	}
+	snapshots, transactions, err := node.persistStore.ReadSnapshotWithTransactionsSinceTopology(offset, 500)
+	if err != nil {
+		return err
+	}
+	for i, s := range snapshots {
+		if len(transactions[i]) != 1 {
+			continue
+		}
+		err = node.reloadConsensusState(s.Snapshot, transactions[i][0])
+		if err != nil {
+			return fmt.Errorf("reloadConsensusState(%v) => %v", s, err)
+		}
+	}
+	return nil
 }
 
 func (node *Node) loadNodeConfig() {
